@@ -224,6 +224,7 @@ class Gen:
         self.jobs = {}       # label -> phase: 'run0' (dispatched RUN, not reset), 'run' (command running), 'check', 'validate'
         self.next_hash = 1
         self.opcount = {}
+        self.defs = {}       # label -> (inp, env, out, vol, need) of the last accepted define_step
 
     def newhash(self):
         self.next_hash += 1
@@ -266,6 +267,21 @@ class Gen:
                         res.append(b[1])
         return sorted(res)
 
+    def success_hashes(self, label):
+        """new_out_hashes of a successful run: every PLANNED output gets a hash; an OUTDATED output
+        is either rewritten with new content (new id) or reproduced identically (the executor
+        only reports hashes that differ from the stored ones, so it is omitted and relies on
+        Step.mark_completed to become BUILT again)."""
+        hs = []
+        for p in self.outputs_of(label):
+            st = self.fstate[p]
+            if st == FileState.PLANNED.value:
+                hs.append((p, self.newhash()))
+            elif st == FileState.OUTDATED.value:
+                if self.fhash.get(p) is None or self.rng.random() < 0.5:
+                    hs.append((p, self.newhash()))
+        return tuple(hs)
+
     async def boot(self):
         await self.snapshot()
         await self.record(("declare_static", ("root", ""), ("plan.py",)))
@@ -275,9 +291,138 @@ class Gen:
         async with self.impl.db:
             self.impl.db.execute("UPDATE step SET _safe = 1, _safe_ignoring_hold = 1, _check_safe = 0")
 
+    # -- directed scenario -------------------------------------------------------------------
+    async def dispatch_until(self, label, limit=6):
+        """Call the real pop_next_job until `label` is dispatched; jobs of other steps are
+        finished at once in the most ordinary way.  Returns the phase of `label` or None."""
+        for _ in range(limit):
+            if self.jobs.get(label) in ("run0", "check", "validate"):
+                return self.jobs[label]
+            before = set(self.jobs)
+            await self.g_dispatch()
+            new = [l for l in self.jobs if l not in before]
+            if not new:
+                return None
+            other = new[0]
+            if other == label:
+                return self.jobs[label]
+            phase = self.jobs[other]
+            if phase == "run0":
+                await self.record(("reset_for_rerun", other))
+                self.jobs.pop(other, None)
+                await self.record(("exec_end", other, (), "SUCCEEDED", self.success_hashes(other), True, False))
+            elif phase == "check":
+                self.jobs.pop(other, None)
+                await self.record(("exec_end", other, (), "SUCCEEDED", self.success_hashes(other), True, False))
+            else:
+                self.jobs.pop(other, None)
+                await self.record(("validate_pending", other))
+        return None
+
+    async def run_to_running(self, label):
+        """Bring `label` from PENDING to a RUNNING job whose command is executing."""
+        phase = await self.dispatch_until(label)
+        if phase == "check":
+            self.jobs.pop(label, None)
+            await self.record(("reset_to_pending", label))
+            phase = await self.dispatch_until(label)
+        if phase == "validate":
+            self.jobs.pop(label, None)
+            await self.record(("reset_to_pending", label))
+            phase = await self.dispatch_until(label)
+        if phase != "run0":
+            return False
+        await self.record(("reset_for_rerun", label))
+        self.jobs[label] = "run"
+        return self.sstate.get(label) == StepState.RUNNING.value
+
+    async def scenario(self):
+        """A step that succeeded before is made pending, dispatched, detached by the rerun of its
+        creator while its job is in flight, completes (outputs rewritten or reproduced
+        identically) and is declared again by the creator (identically or not)."""
+        rng = self.rng
+        plan = "./plan.py"
+        if not await self.run_to_running(plan):
+            return
+        a, b = rng.sample(STEPS, 2)
+        use_static = rng.random() < 0.6
+        if use_static:
+            await self.record(("declare_static", ("step", plan), ("f0",)))
+            await self.record(("update_hashes", "CONFIRMED", (("f0", self.newhash()),)))
+        inp_a = ("f0",) if use_static else rng.choice([(), ("plan.py",)])
+        out_a = rng.choice([("f1",), ("f1", "f2")])
+        env_a = rng.choice([(), ("E0",)])
+        spec_a = (inp_a, env_a, out_a, (), "DEFAULT")
+        if await self.record(("define_step", ("step", plan), a, *spec_a)) != "ok":
+            return
+        self.defs[a] = spec_a
+        with_b = rng.random() < 0.5
+        spec_b = (("f1",), (), ("f3",), (), "DEFAULT")
+        if with_b and await self.record(("define_step", ("step", plan), b, *spec_b)) == "ok":
+            self.defs[b] = spec_b
+        else:
+            with_b = False
+        self.jobs.pop(plan, None)
+        await self.record(("exec_end", plan, (), "SUCCEEDED", (), True, False))
+        # first run of A (and B)
+        for lab in ([a, b] if with_b else [a]):
+            if not await self.run_to_running(lab):
+                return
+            self.jobs.pop(lab, None)
+            await self.record(("exec_end", lab, (), "SUCCEEDED", self.success_hashes(lab), True, False))
+        # make A pending again
+        how = rng.choice(["env", "input", "output-deleted", "output-changed"])
+        if how == "input" and inp_a:
+            await self.record(("update_hashes", "EXTERNAL", ((inp_a[0], self.newhash()),)))
+        elif how == "output-deleted":
+            await self.record(("update_hashes", "EXTERNAL", ((out_a[0], None),)))
+        elif how == "output-changed":
+            await self.record(("update_hashes", "EXTERNAL", ((out_a[0], self.newhash()),)))
+        else:
+            await self.record(("mark_step_pending", a))
+        in_check = False
+        if rng.random() < 0.3:
+            in_check = (await self.dispatch_until(a)) == "check"
+            if not in_check and not await self.run_to_running(a):
+                return
+        elif not await self.run_to_running(a):
+            return
+        # the creator is rerun while A is in flight: A becomes detached
+        if rng.random() < 0.5:
+            await self.record(("mark_step_pending", plan))
+        else:
+            await self.record(("update_hashes", "EXTERNAL", (("plan.py", self.newhash()),)))
+        if not await self.run_to_running(plan):
+            return
+        # A completes while detached
+        self.jobs.pop(a, None)
+        r = rng.random()
+        if r < 0.75:
+            await self.record(("exec_end", a, (), "SUCCEEDED", self.success_hashes(a), True, False))
+        elif in_check:
+            await self.record(("reset_to_pending", a))
+        else:
+            outs = self.outputs_of(a)
+            hs = tuple((p, rng.choice([None, self.newhash()])) for p in outs if rng.random() < 0.5)
+            await self.record(("exec_end", a, (), "FAILED", hs, False, rng.random() < 0.3))
+        # the creator declares its steps again
+        if rng.random() < 0.8:
+            await self.record(("define_step", ("step", plan), a, *spec_a))
+        else:
+            changed = (inp_a, env_a, out_a + ("f4",), (), "DEFAULT")
+            if await self.record(("define_step", ("step", plan), a, *changed)) == "ok":
+                self.defs[a] = changed
+        if with_b and rng.random() < 0.7:
+            await self.record(("define_step", ("step", plan), b, *spec_b))
+        if rng.random() < 0.7:
+            self.jobs.pop(plan, None)
+            await self.record(("exec_end", plan, (), "SUCCEEDED", (), True, False))
+
     async def run(self):
         await self.boot()
         rng = self.rng
+        if rng.random() < 0.6:
+            await self.scenario()
         while len(self.trace) < self.length:
             running = self.running()
             run0 = [l for l, p in self.jobs.items() if p == "run0"]
@@ -290,6 +435,8 @@ class Gen:
                 r = [(l,) for l in running]
                 cats += [("declare", 6, r), ("define", 16, r), ("amend", 8, r), ("end", 10, r),
                          ("hold", 2, r), ("release", 2, r)]
+                if any(self.detached.get(("step", l), False) and l in self.sstate for l in self.defs):
+                    cats.append(("redefine", 12, r))
             if checks:
                 cats.append(("skip", 12, [(l,) for l in checks]))
             if validates:
@@ -353,6 +500,19 @@ class Gen:
             if rng.random() < 0.25 else ()
         env = self.subset(ENVS, 0, 1) if rng.random() < 0.3 else ()
         need = rng.choice(["DEFAULT", "DEFAULT", "OPTIONAL", "PLAN"])
+        oc = await self.record(("define_step", ("step", label), new, inp, env, out, vol, need))
+        if oc == "ok":
+            self.defs[new] = (inp, env, out, vol, need)
+
+    async def g_redefine(self, label):
+        """A running step declares again, with the identical specification, a step that has been
+        detached (typically by the rerun of its creator): the full-recycle path of define_step."""
+        cand = sorted(l for l in self.defs
+                      if self.detached.get(("step", l), False) and l in self.sstate and l != label)
+        if not cand:
+            return
+        new = self.rng.choice(cand)
+        inp, env, out, vol, need = self.defs[new]
         await self.record(("define_step", ("step", label), new, inp, env, out, vol, need))
 
     async def g_amend(self, label):
@@ -370,8 +530,7 @@ class Gen:
         pre = ()
         if r < 0.55:
             # success: every output on disk; new_out_hashes = those that differ from the stored hash
-            hs = tuple((p, self.newhash()) for p in outs
-                       if self.fstate[p] in (FileState.PLANNED.value, FileState.OUTDATED.value))
+            hs = self.success_hashes(label)
             op = ("exec_end", label, (), "SUCCEEDED", hs, True, False)
         elif r < 0.75:
             hs = tuple((p, rng.choice([None, self.newhash()])) for p in outs if rng.random() < 0.7)
@@ -393,9 +552,7 @@ class Gen:
         rng = self.rng
         self.jobs.pop(label, None)
         if rng.random() < 0.5:
-            outs = self.outputs_of(label)
-            hs = tuple((p, self.newhash()) for p in outs
-                       if self.fstate[p] in (FileState.PLANNED.value, FileState.OUTDATED.value))
+            hs = self.success_hashes(label)
             await self.record(("exec_end", label, (), "SUCCEEDED", hs, True, False))
         elif rng.random() < 0.15:
             await self.early_input_failure(label)
@@ -444,6 +601,12 @@ class Gen:
 
     async def g_envchange(self):
         cand = sorted(l for l in self.sstate if not self.detached.get(("step", l), True))
+        # prefer, half of the time, the creators of steps whose job is in flight: their rerun
+        # detaches a step that is still RUNNING
+        busy = sorted({c[1] for l in self.jobs for c in [self.creator.get(("step", l))]
+                       if c is not None and c[0] == "step" and c[1] in cand})
+        if busy and self.rng.random() < 0.5:
+            cand = busy
         if cand:
             await self.record(("mark_step_pending", self.rng.choice(cand)))
 
